@@ -94,6 +94,17 @@ def cases_for(tier):
         cases.append(('corpus', deep, dict(width=w)))
         cases.append(('corpus', ('list', [('str', '')]), dict(width=w)))
         cases.append(('corpus', ('dict', [(('str', ''), ('bytes', b''))]), dict(width=w, indent=8)))
+    # str / bytes without any whitespace, words separated by punctuation and control characters (URLs, paths,
+    # query strings): split on the non-word pattern; every position, narrow and default widths
+    for _ in range(150 if tier == 'quick' else 2000):
+        isb = r.random() < 0.6
+        leaf = ('bytes' if isb else 'str', valgen.rand_punct_text(r, isb))
+        other = ('bytes' if isb else 'str', valgen.rand_punct_text(r, isb, 2))
+        t = r.choice([leaf, ('list', [leaf]), ('tuple', [leaf]), ('dict', [(leaf, other)]), ('dict', [(other, leaf)]),
+                      ('frozenset', [leaf]), ('set', [leaf, other]), ('list', [('int', 1), ('tuple', [leaf, other])])])
+        for w in (79, r.randint(1, 60)):
+            cases.append(('punct', t, dict(width=w, ribbon_width=r.choice([w, 200, max(1, w // 2)]),
+                                           indent=r.choice([1, 4]))))
     # containers longer than any limit built into the package (the context's own default is 1000), nested,
     # with truncation switched off or far away: nothing may be cut
     long_list = ('list', [('int', i % 10) for i in range(1001)])
